@@ -88,9 +88,7 @@ Qed.
 Lemma write_escaped_is_enc is_ml s : write_escaped (S (length s)) is_ml s = enc is_ml 0 s.
 Proof. apply write_escaped_enc. lia. Qed.
 
-(* ---- (2) the metrics pass, release arithmetic ------------------------------------------------ *)
-Definition qnext (cur : N) (hit : bool) : N :=
-  if hit then (if (cur =? 255)%N then 0%N else (cur + 1)%N) else 0%N.
+(* ---- (2) the metrics pass (saturating u8 counters) ------------------------------------------- *)
 
 Definition m_next (m : vmetrics) (b : byte) (ps' pd' : N) : vmetrics :=
   let m1 := mkVM (if byte_eqb b x27 then N.max (max_seq_single_quotes m) ps' else max_seq_single_quotes m)
@@ -103,12 +101,11 @@ Definition m_next (m : vmetrics) (b : byte) (ps' pd' : N) : vmetrics :=
   else m1.
 
 Lemma vm_loop_cons b r ps pd m :
-  vmetrics_loop true (b :: r) ps pd m =
-  vmetrics_loop true r (qnext ps (byte_eqb b x27)) (qnext pd (byte_eqb b x22))
+  vmetrics_loop (b :: r) ps pd m =
+  vmetrics_loop r (qnext ps (byte_eqb b x27)) (qnext pd (byte_eqb b x22))
     (m_next m b (qnext ps (byte_eqb b x27)) (qnext pd (byte_eqb b x22))).
 Proof.
-  cbn [vmetrics_loop]. unfold qnext, m_next.
-  destruct (byte_eqb b x27), (byte_eqb b x22), (ps =? 255)%N, (pd =? 255)%N; reflexivity.
+  cbn [vmetrics_loop]. unfold m_next. reflexivity.
 Qed.
 
 (* a byte that forces escape codes: a control character other than tab and LF *)
@@ -147,14 +144,7 @@ Fixpoint no3 (q : byte) (k : N) (s : bytes) : bool :=
   | b :: r => if byte_eqb b q then (k <? 2)%N && no3 q (k + 1) r else no3 q 0 r
   end.
 
-Lemma vm_total : forall s ps pd m, exists m', vmetrics_loop true s ps pd m = WOk m'.
-Proof.
-  induction s as [|b r IH]; intros ps pd m.
-  - exists m. reflexivity.
-  - rewrite vm_loop_cons. apply IH.
-Qed.
-
-Lemma vm_inv : forall s ps pd m m', vmetrics_loop true s ps pd m = WOk m' ->
+Lemma vm_inv : forall s ps pd m m', vmetrics_loop s ps pd m = m' ->
   (ps <= max_seq_single_quotes m)%N ->
   (max_seq_single_quotes m <= max_seq_single_quotes m')%N /\
   (vm_escape_codes m' = false ->
@@ -165,7 +155,7 @@ Lemma vm_inv : forall s ps pd m m', vmetrics_loop true s ps pd m = WOk m' ->
   ((max_seq_single_quotes m' <= 2)%N -> (ps <= 2)%N -> no3 x27 ps s = true).
 Proof.
   induction s as [|b r IH]; intros ps pd m m' H Hps.
-  - cbn in H. injection H as <-. cbn. repeat split; auto; lia.
+  - cbn in H. subst m'. cbn. repeat split; auto; lia.
   - rewrite vm_loop_cons in H. apply IH in H.
     2:{ rewrite m_next_single. unfold qnext. destruct (byte_eqb b x27); [|lia]. destruct (ps =? 255)%N; lia. }
     destruct H as [H1 [H2 [H3 [H4 H5]]]].
@@ -186,16 +176,16 @@ Proof.
 Qed.
 
 (* what `vmetrics_of true s = WOk m` tells about s *)
-Lemma vm_of_codes s m : vmetrics_of true s = WOk m -> vm_escape_codes m = false ->
+Lemma vm_of_codes s m : vmetrics_of s = m -> vm_escape_codes m = false ->
   forallb (fun b => negb (needs_code b)) s = true.
 Proof. intros H E. apply vm_inv in H; [|cbn; lia]. apply H in E. tauto. Qed.
-Lemma vm_of_newline s m : vmetrics_of true s = WOk m -> vm_newline m = false ->
+Lemma vm_of_newline s m : vmetrics_of s = m -> vm_newline m = false ->
   forallb (fun b => negb (byte_eqb b x0a)) s = true.
 Proof. intros H E. apply vm_inv in H; [|cbn; lia]. apply H in E. tauto. Qed.
-Lemma vm_of_no_apos s m : vmetrics_of true s = WOk m -> (0 <? max_seq_single_quotes m)%N = false ->
+Lemma vm_of_no_apos s m : vmetrics_of s = m -> (0 <? max_seq_single_quotes m)%N = false ->
   forallb (fun b => negb (byte_eqb b x27)) s = true.
 Proof. intros H E. apply vm_inv in H; [|cbn; lia]. apply H. lia. Qed.
-Lemma vm_of_no3 s m : vmetrics_of true s = WOk m -> (2 <? max_seq_single_quotes m)%N = false ->
+Lemma vm_of_no3 s m : vmetrics_of s = m -> (2 <? max_seq_single_quotes m)%N = false ->
   no3 x27 0 s = true.
 Proof. intros H E. apply vm_inv in H; [|cbn; lia]. apply H; lia. Qed.
 
